@@ -1,4 +1,5 @@
 import PcfgVerif.Properties.ExpandCore
+import PcfgVerif.Generated.CliOptions
 import PcfgVerif.Properties.PQCore
 import PcfgVerif.Lemmas.SoftFloatLemmas
 import PcfgVerif.Generated.PrintSites
@@ -106,6 +107,19 @@ theorem C17_binary64 (g : Grid Nat) (hwf : WF sfAlg.toPOps g) (s : PQState)
 theorem C17_only_print_guess_writes_stdout :
     Generated.PrintSites.princeNonStderr =
       [("lib_guesser/pcfg_grammar.py", "PcfgGrammar.print_guess", "stdout")] := by decide
+
+/-- the option glue of `prince_ling.py` (regenerated from the source): ruleset name, output file, `--size` (an `int`) and
+`--all_lower` reach the program as typed -/
+theorem C17_cli_passes_options :
+    Generated.CliOptions.princeAssign =
+      [("parse_command_line", "rule_name", "args.rule"),
+       ("parse_command_line", "output_file", "args.output"),
+       ("parse_command_line", "max_size", "args.size"),
+       ("parse_command_line", "skip_case", "args.skip_case")] ∧
+    ("--size", "program_info['max_size']", "int", "'store'", "None", "None") ∈ Generated.CliOptions.princeOptions ∧
+    ("--all_lower", "program_info['skip_case']", "None", "'store_const'", "not program_info['skip_case']", "'skip_case'") ∈
+      Generated.CliOptions.princeOptions := by
+  decide
 
 end C17
 end Pcfg
